@@ -401,6 +401,7 @@ class GdbSim:
 
     def message_hit(self, slot, cl):
         g = self.gdb
+        self.rec.add('line', (cl.conn, cl.idx, cl.name))
         sent = P.is_sent(cl, slot.side)
         ca = self.build_closure(slot, cl, received=not sent)
         closure_v = g.Value(g.lookup_type('wl_closure').pointer(), raw=ca)
@@ -549,7 +550,7 @@ class GdbSim:
                 elif self.halted:
                     # the user resumes the program with plain gdb `continue`
                     self.bump('plain_continue_by_user')
-                    self.rec.add('cmd', 'continue')
+                    self.rec.add('auto-continue', 'continue')
                     self.halted = False
                     self.run_until_stop()
                 else:
